@@ -470,3 +470,12 @@ def pick_first_step(rnd: random.Random, lo: int = 1, hi: int = 500) -> int:
     if rnd.random() < 0.25:
         return max(lo, rnd.choice([9, 99, 999]) - rnd.choice([0, 0, 1, 2]))
     return rnd.randint(lo, hi)
+
+
+def huge_trace(seed: int, rank: int = 0, **over: Any) -> Dict[str, Any]:
+    """A deterministic trace with more than 32767 events (row ids beyond int16), for the thorough tiers."""
+    rnd = random.Random(seed)
+    p = random_params(rnd, "thorough", rank=rank, first_step=5, n_steps=90, ops_per_step=(80, 110), max_depth=3, avoid_k1=True,
+                      autograd=False, n_threads=2, base=1000, file_order="time", outer_frame=False)
+    p.update(over)
+    return gen_trace(rnd, **p)
